@@ -1,8 +1,20 @@
 import Martian.Util
 import Martian.Model.HarLog
-/-! Driver for C17: runs the pointer-level model (`HarLog.step`) and, beside it, the abstract
-    list specification; a difference between the two (excluded by `Props.C17.heap_refines_spec`)
-    would be printed as `levels-differ`. -/
+/-! Driver for C17: runs the API-level pointer model (`HarLog.Logger.step`: options, NewRequest /
+    NewResponse failure paths, ring + index) and, beside it, the abstract list specification
+    (`SLogger.step`); a difference between the two (excluded by `Props.C17.logger_refines_spec`)
+    would be printed as `levels-differ`.
+
+    ops
+      req <id> | res <id>                       bodiless request / `http.NoBody` response
+      reqm <id> <framed 0|1> <ctype hex> <fault n|r|d>
+      resm <id> <ctype hex> <fault n|r|d>
+      opt post|body all 0|1 | only <hex,hex,…> | skip <hex,…>
+      export | xreset | reset
+      seq <word>        compact alphabet, fresh Logger (see `charCall`)
+      lin <tag>:<k>[:<id>] …   a tagged sequential history on a fresh Logger (the linearisation the
+                        harness found for a concurrent run): k = q s (plain req/res), Q S (read
+                        fault on a framed request / on a response), e x r -/
 namespace Martian.Drv.C17
 open Martian Martian.HarLog
 
@@ -12,51 +24,122 @@ def showEnt (e : Ent) : String :=
 def showObs : Obs → String
   | .ok => "ok"
   | .dup => "err dup"
+  | .err => "err msg"
   | .log es => if es.isEmpty then "log -" else "log " ++ ",".intercalate (es.map showEnt)
   | .panic => "panic"
   | .diverge => "diverge"
 
 structure St where
-  h : Heap
-  l : Log
+  lg : Logger
+  sl : SLogger
   t : Nat
 
-def init : St := ⟨HarLog.init, [], 0⟩
+def init : St := ⟨Logger.init, ⟨Cfg.default, []⟩, 0⟩
 
-def parseOp : List String → Option Op
-  | ["req", id] => some (.req id)
-  | ["res", id] => some (.res id)
+def parseFault : String → Option Fault
+  | "n" => some .none
+  | "r" => some .read
+  | "d" => some .decode
+  | _ => none
+
+def parseStr (s : String) : Option String := (unhex s).map bytesStr
+
+def parseStrs (s : String) : Option (List String) :=
+  if s = "-" then some [] else (s.splitOn ",").mapM parseStr
+
+def parseOpt : List String → Option LogOpt
+  | ["all", "0"] => some (.all false)
+  | ["all", "1"] => some (.all true)
+  | ["only", l] => (parseStrs l).map .only
+  | ["skip", l] => (parseStrs l).map .skip
+  | _ => none
+
+def parseCall : List String → Option Call
+  | ["req", id] => some (.req id Msg.plain)
+  | ["res", id] => some (.res id Msg.plain)
+  | ["reqm", id, fr, ct, f] => do
+    let ct ← parseStr ct
+    let f ← parseFault f
+    if fr = "1" then some (.req id ⟨true, ct, f⟩) else if fr = "0" then some (.req id ⟨false, ct, f⟩) else none
+  | ["resm", id, ct, f] => do
+    let ct ← parseStr ct
+    let f ← parseFault f
+    some (.res id ⟨false, ct, f⟩)
+  | "opt" :: "post" :: rest => (parseOpt rest).map .setPost
+  | "opt" :: "body" :: rest => (parseOpt rest).map .setBody
   | ["export"] => some .exp
   | ["xreset"] => some .xreset
   | ["reset"] => some .reset
   | _ => none
 
-def doOp (s : St) (o : Op) : St × String :=
-  let (h', ob) := HarLog.step s.h s.t o
-  let (l', ob') := Spec.step s.l s.t o
-  (⟨h', l', s.t + 1⟩, if ob = ob' then showObs ob else "levels-differ " ++ showObs ob ++ " / " ++ showObs ob')
+def stepAt (s : St) (t : Nat) (c : Call) : St × String :=
+  let (l', ob) := s.lg.step t c
+  let (g', ob') := s.sl.step t c
+  (⟨l', g', s.t⟩, if ob = ob' then showObs ob else "levels-differ " ++ showObs ob ++ " / " ++ showObs ob')
 
-/-- compact op alphabet of `seq`: a b c = request, A B C = response, e x r. -/
-def charOp (c : Char) : Option Op :=
-  if c = 'e' then some .exp else if c = 'x' then some .xreset else if c = 'r' then some .reset
-  else if c.isLower then some (.req (String.singleton c))
-  else if c.isUpper then some (.res (String.singleton c.toLower))
+def doCall (s : St) (c : Call) : St × String :=
+  let (s', line) := stepAt s s.t c
+  ({ s' with t := s.t + 1 }, line)
+
+/-- compact alphabet of `seq`: a b c … = request, A B C … = response, e x r,
+    1 2 3 = response for a b c whose body reader fails, 4 5 6 = framed request for a b c whose
+    body reader fails, `-` / `+` = body and post-data logging off / on. -/
+def charCalls (c : Char) : Option (List Call) :=
+  if c = 'e' then some [.exp] else if c = 'x' then some [.xreset] else if c = 'r' then some [.reset]
+  else if c = '1' then some [.res "a" ⟨false, "", .read⟩]
+  else if c = '2' then some [.res "b" ⟨false, "", .read⟩]
+  else if c = '3' then some [.res "c" ⟨false, "", .read⟩]
+  else if c = '4' then some [.req "a" ⟨true, "", .read⟩]
+  else if c = '5' then some [.req "b" ⟨true, "", .read⟩]
+  else if c = '6' then some [.req "c" ⟨true, "", .read⟩]
+  else if c = '-' then some [.setPost (.all false), .setBody (.all false)]
+  else if c = '+' then some [.setPost (.all true), .setBody (.all true)]
+  else if c.isLower then some [.req (String.singleton c) Msg.plain]
+  else if c.isUpper then some [.res (String.singleton c.toLower) Msg.plain]
   else none
 
+/-- one letter = one tag (the two SetOption calls of `-`/`+` share it; they record nothing). -/
+def doLetter (s : St) (cs : List Call) : St × String :=
+  let (s', lines) := cs.foldl (fun (acc : St × List String) c =>
+    let (s1, line) := stepAt acc.1 acc.1.t c
+    (s1, line :: acc.2)) (s, [])
+  ({ s' with t := s.t + 1 }, lines.headD "bad-op")
+
 def seqOp (w : String) : String :=
-  match w.toList.mapM charOp with
+  match w.toList.mapM charCalls with
   | none => "bad-op"
   | some ops =>
-    let (_, outs) := ops.foldl (fun (acc : St × List String) o =>
-      let (s', line) := doOp acc.1 o
+    let (_, outs) := ops.foldl (fun (acc : St × List String) cs =>
+      let (s', line) := doLetter acc.1 cs
       (s', line :: acc.2)) (init, [])
     "|".intercalate outs.reverse
+
+def parseTagged (tok : String) : Option (Nat × Call) :=
+  match tok.splitOn ":" with
+  | [t, "q", id] => t.toNat?.map (·, .req id Msg.plain)
+  | [t, "s", id] => t.toNat?.map (·, .res id Msg.plain)
+  | [t, "Q", id] => t.toNat?.map (·, .req id ⟨true, "", .read⟩)
+  | [t, "S", id] => t.toNat?.map (·, .res id ⟨false, "", .read⟩)
+  | [t, "e"] => t.toNat?.map (·, .exp)
+  | [t, "x"] => t.toNat?.map (·, .xreset)
+  | [t, "r"] => t.toNat?.map (·, .reset)
+  | _ => none
+
+def linOp (toks : List String) : String :=
+  match toks.mapM parseTagged with
+  | none => "bad-op"
+  | some cs =>
+    let (_, outs) := cs.foldl (fun (acc : St × List String) tc =>
+      let (s', line) := stepAt acc.1 tc.1 tc.2
+      (s', line :: acc.2)) (init, [])
+    "lin " ++ "|".intercalate outs.reverse
 
 def step (s : St) (toks : List String) : St × String :=
   match toks with
   | ["seq", w] => (s, seqOp w)
-  | _ => match parseOp toks with
-    | some o => doOp s o
+  | "lin" :: rest => (s, linOp rest)
+  | _ => match parseCall toks with
+    | some c => doCall s c
     | none => (s, "bad-op")
 
 end Martian.Drv.C17
